@@ -405,10 +405,9 @@ func runC01(res *hx.Result, rng *hx.Rng, tier string, outdir string) {
 	cf.Flush()
 	// limit-sized payloads: implementation-only oracle (too large for the in-Coq evaluation)
 	{
-		sizes := []int{65535, 65536, 65537, 70000, 1 << 20}
-		if tier == "thorough" {
-			sizes = append(sizes, int(net.MaxPayloadSize)-1, int(net.MaxPayloadSize))
-		}
+		// large payloads, and the window just below the limit (a frame-size test that forgets the
+		// header would refuse the last 28 legal lengths)
+		sizes := []int{65535, 65536, 65537, 70000, 1 << 20, int(net.MaxPayloadSize) - 28, int(net.MaxPayloadSize) - 27, int(net.MaxPayloadSize) - 1, int(net.MaxPayloadSize)}
 		for _, n := range sizes {
 			h := genHeader(rng)
 			p := rng.Bytes(n)
